@@ -181,11 +181,7 @@ func (pe *pathEnum) block(c *seeCtx, b, pred *ssa.BasicBlock, st *pstate, emit f
 			if !ok {
 				break
 			}
-			nm := ph.Comment
-			if nm == "" {
-				nm = ph.Name()
-			}
-			c.memo[ph] = &Expr{Op: OpLoop, V: ph, Typ: ph.Type(), Name: nm, Idx: 1}
+			c.memo[ph] = &Expr{Op: OpLoop, V: ph, Typ: ph.Type(), Name: LoopName(ph), Idx: 1}
 		}
 	} else if pred != nil {
 		// Resolve phis by the edge taken (simultaneous assignment).
@@ -432,3 +428,15 @@ func pureCall(e *Expr) bool {
 	}
 	return false
 }
+
+// LoopName is the symbol name of a loop-header phi: its source name (when it
+// has one) plus its SSA register, so that two loops' counters stay distinct.
+func LoopName(ph *ssa.Phi) string {
+	if ph.Comment != "" {
+		return ph.Comment + "." + ph.Name()
+	}
+	return ph.Name()
+}
+
+// LoopSym is the canonical string of the loop symbol for ph.
+func LoopSym(ph *ssa.Phi) string { return "loop:" + LoopName(ph) }
